@@ -98,9 +98,9 @@ func writeEvidence(verif, prop, tier string, seed uint64, cfg tierCfg, total *St
 // expectedProbes lists rare conditions each engine is supposed to reach; one
 // stuck at zero is listed under "unreached" in the evidence file.
 var expectedProbes = map[string][]string{
-	"C14": {"round-trip-judged", "stdin-crossed-4096", "o-write-failed-after-some-sectors"},
-	"C13": {},
-	"C15": {},
+	"C14": {"round-trip-judged", "stdin-crossed-4096", "o-write-failed-after-some-sectors", "status-judged-against-documents"},
+	"C13": {"damaged-artefact-accepted", "consumer-rejected-with-status-2", "library-error-reported-as-status-2", "patch-accepted-on-a-stale-or-foreign-target", "operator-written-artefact-read"},
+	"C15": {"multi-add-hunk-rendered-as-json-patch", "void-addition-rendered-as-merge-patch", "hand-written-merge-hunks-rendered-as-merge-patch", "merge-patch-read-under-permuted-map-order", "live-document-patched-in-place-with-live-diff", "map-range-with-3+-keys-permuted"},
 }
 
 func orEmpty(s []string) []string {
